@@ -388,6 +388,8 @@ var c20templates = []string{
 	/* 23 */ "local r = \x01 == 0x\x1eF\nlocal t = { [0x0\x1e] = 1, [0x0\x1e] = 2 }\nif \x01 == 0x\x1eF then g = 1 elseif \x01 == 0x\x1eF then g = 2 end\nlocal s = \x01 ~= 0x\x1e.8\nlocal u = \x01 == 0x\x1ep1\nlocal v = \x01 == \x1f\x1f\nlocal w = \x01 == 1e\x1f\n",
 	// an else branch after a constant condition, indexed operands, bracketed string keys, a unary minus
 	/* 24 */ "if \x01 then g = 1 elseif true then g = 2 else g = 3 end\nif true then g = 4 else g = 5 end\nlocal r = t[1] == t[1]\nlocal s = t[\"\x01.\x02\"] == t.\x01.\x02\nlocal u = { [1] = 1, [\"#int1\"] = 2, [\"\x01\"] = 3, \x02 = 4 }\nlocal v = \x01 == -1\x1b5\nlocal w = nil or true\n",
+	// a key given by a variable beside a string key of the same spelling: different keys
+	/* 25 */ "local x = { [\x01] = 1, \x02 = 2, [\"\x03\"] = 3, [\x02] = 4 }\n",
 }
 
 func VerifRun_C20() {
